@@ -46,7 +46,8 @@ RULE = ('One offender transport sends generated sequences of hostile frames '
         'Non-trivial: the sequence contains a frame that decodes to an '
         'allowed packet type on a namespace shared with a bystander.')
 ASSUMPTIONS = [
-    '"cannot be decoded" means the implementation\'s decoder raised',
+    '"cannot be decoded" means the implementation\'s decoder raised, or the '
+    'payload of an EVENT / BINARY_EVENT is not a non-empty array',
     'harness handlers do not emit; each frame is processed to quiescence '
     'before the next one (exact attribution)',
     'engine.io contains exceptions raised by the message handler (trusted)',
@@ -71,6 +72,10 @@ SEEDS = [
     '2/x,["disconnect","§B1§","x"]', '2/c,["connect","§B2§",{},{}]',
     '2/c,["disconnect","§B2§"]', '2["b","§B0§"]', '2/none,["b","§B0§"]',
     '2/none,["zz","§B0§","§B1§"]', '2/x,1["a"]', '20["a"]', '2/x,0["a"]',
+    # payloads of the wrong type: an event is an array that starts with
+    # its name
+    '2"a"', '2/x,"zz"', '2{"a":"§B0§"}', '2/c,"ab"', '2[]', '2/x,5{"zz":1}',
+    '2"b§B0§"', '2null', '2/c,true',
 ]
 
 
@@ -319,6 +324,11 @@ def _run(case, w):
             try:
                 p = sio.packet_class(encoded_packet=body)
                 decodable = True
+                if p.packet_type in (2, 5) and not (
+                        isinstance(p.data, list) and p.data):
+                    # not an event: nothing names it, nothing to spread
+                    decodable = False
+                    labels['payload_of_wrong_type'] = True
                 if p.packet_type in (2, 3, 5, 6) and \
                         (p.namespace or '/') in shared:
                     labels['nontrivial'] = True
